@@ -430,5 +430,10 @@ neu('N2-fit-predict-keyword-order', ALLP, [(D + 'cwmm.py', "            iteratio
 neu('N2-si-sdr-temporaries', ALLP, [('pb_bss/evaluation/module_si_sdr.py', "    ratio = np.sum(projection ** 2, axis=-1) / np.sum(noise ** 2, axis=-1)\n    return 10 * np.log10(ratio)", "    target_energy = np.sum(projection ** 2, axis=-1)\n    residual_energy = np.sum(noise ** 2, axis=-1)\n    return 10 * np.log10(target_energy / residual_energy)", False)])
 
 out = pathlib.Path(__file__).resolve().parent.parent / 'pbv' / 'selftest_corpus.json'
+# ---- whole refactorings written by independent sub-agents (14-20 behaviour-preserving edits each, verified bit-identical on
+#      600-900 inputs per patch): every check must stay silent on each of them
+for r, what in (('R1', 'mixture_model_utils / cacgmm / cACG'), ('R2', 'cwmm / cbmm / Watson / Bingham / distribution.utils'), ('R3', 'gmm / gaussian / vMF / gcacgmm / vmfcacgmm'),
+                ('R4', 'beamformer / beamformer_wrapper / math.solve'), ('R5', 'permutation_alignment / initializers'), ('R6', 'mask_module / sxr_module / si_sdr / utils')):
+    C.append(dict(id=f'N3-{r}-refactoring', kind='neutral', properties=ALLP, note=f'independent refactoring of {what}', patch=f'neutral_patches/{r}.patch', edits=[]))
 out.write_text(json.dumps(C, indent=1))
 print(len(C), 'variants ->', out)
